@@ -508,3 +508,82 @@ mod test {
         assert_eq!(0, error_count.dropped_lines());
     }
 }
+
+// Verification hook H3 (only compiled with `--cfg tracing_verif`): the pieces
+// `NonBlocking::create` assembles, without `worker.worker_thread(..)`, so that a
+// sequential model checker can drive the real `Worker::work` itself.
+#[cfg(tracing_verif)]
+#[allow(missing_docs, unreachable_pub)]
+pub(crate) mod __verif_non_blocking {
+    use super::*;
+
+    /// The two senders a `WorkerGuard` holds (no `JoinHandle`: no thread exists).
+    #[derive(Debug)]
+    pub struct VGuard {
+        pub(crate) sender: Sender<Msg>,
+        pub(crate) shutdown: Sender<()>,
+    }
+
+    /// What `NonBlocking::create` builds, minus the spawned thread.
+    pub(crate) fn create_unspawned<T: Write + Send + 'static>(
+        writer: T,
+        buffered_lines_limit: usize,
+        is_lossy: bool,
+    ) -> (NonBlocking, Worker<T>, VGuard) {
+        let (sender, receiver) = bounded(buffered_lines_limit);
+        let (shutdown_sender, shutdown_receiver) = bounded(0);
+        let worker = Worker::new(receiver, writer, shutdown_receiver);
+        let guard = VGuard {
+            sender: sender.clone(),
+            shutdown: shutdown_sender,
+        };
+        (
+            NonBlocking {
+                channel: sender,
+                error_counter: ErrorCounter(Arc::new(AtomicUsize::new(0))),
+                is_lossy,
+            },
+            worker,
+            guard,
+        )
+    }
+
+    impl VGuard {
+        /// First message of `WorkerGuard::drop`: `Msg::Shutdown` behind all queued lines.
+        pub fn send_shutdown(&self, timeout: Duration) -> Result<(), VSendTimeout> {
+            match self.sender.send_timeout(Msg::Shutdown, timeout) {
+                Ok(()) => Ok(()),
+                Err(SendTimeoutError::Timeout(_)) => Err(VSendTimeout::Timeout),
+                Err(SendTimeoutError::Disconnected(_)) => Err(VSendTimeout::Disconnected),
+            }
+        }
+
+        /// Second message of `WorkerGuard::drop`: the rendezvous on the zero-capacity channel.
+        pub fn send_rendezvous(&self, timeout: Duration) -> Result<(), VSendTimeout> {
+            match self.shutdown.send_timeout((), timeout) {
+                Ok(()) => Ok(()),
+                Err(SendTimeoutError::Timeout(_)) => Err(VSendTimeout::Timeout),
+                Err(SendTimeoutError::Disconnected(_)) => Err(VSendTimeout::Disconnected),
+            }
+        }
+
+        /// Number of messages currently queued (accepted, not yet taken by the worker).
+        pub fn queued(&self) -> usize {
+            self.sender.len()
+        }
+    }
+
+    /// Outcome of a guard message, without the payload.
+    #[derive(Debug, Clone, Copy, PartialEq, Eq)]
+    pub enum VSendTimeout {
+        Timeout,
+        Disconnected,
+    }
+
+    impl NonBlocking {
+        /// Whether this writer was configured lossy.
+        pub fn __verif_is_lossy(&self) -> bool {
+            self.is_lossy
+        }
+    }
+}
